@@ -31,6 +31,10 @@ func ZZ_C13_createOrReuse() {
 		tpl = "C"
 	}
 	ds := zzEDS("ns", "foo", tpl, canary)
+	// the object itself may carry a (stale) template-hash annotation, e.g. a manifest derived from an export
+	if nondet.Bool("eds.staleHashAnnotation") {
+		ds.Annotations[datadoghqv1alpha1.MD5ExtendedDaemonSetAnnotationKey] = "hash-of-a-previous-template"
+	}
 	c := fakeapi.New()
 	var present []string
 	for _, id := range []string{"A", "B", "C"} {
